@@ -440,7 +440,8 @@ theorem handshake_reader_waits_or_done (env : Env) (s : PState) (p tail : Bytes)
 /-! ## 8. Establishing connections: `connect_to_peer`, `_TcpServer` / `add_incoming_connection` -/
 
 theorem connect_invalid_name_refused (w : World) (id n : Nat) (chunks : List Bytes) :
-    w.connect id (.client n) chunks = (w, [], some .invalidName) := by
+    w.connect id (.client n) chunks = (w, [], some .invalidName) ∧
+    w.connect id (.dollar n) chunks = (w, [], some .invalidName) := by
   simp [World.connect]
 
 theorem connect_duplicate_refused (w : World) (id k : Nat) (chunks : List Bytes)
@@ -508,6 +509,7 @@ theorem connect_failure_registers_nothing (w : World) (id : Nat) (name : Name) (
      ((w.connect id name chunks).1.conns.lookup id).map (·.closed) = some true) := by
   cases name with
   | client n => simp [World.connect]
+  | dollar n => simp [World.connect]
   | ctx k =>
     unfold World.connect at h ⊢
     simp only [Bool.false_eq_true, ↓reduceIte] at h ⊢
@@ -627,6 +629,7 @@ theorem aliasesBelow_preserved (w : World) (hinv : AliasesBelow w) :
   · intro id name chunks n i hm
     cases name with
     | client m => simp only [World.connect, ↓reduceIte] at hm ⊢; exact hinv _ _ hm
+    | dollar m => simp only [World.connect, ↓reduceIte] at hm ⊢; exact hinv _ _ hm
     | ctx k =>
       unfold World.connect at hm ⊢
       simp only [Bool.false_eq_true, ↓reduceIte] at hm ⊢
@@ -666,6 +669,36 @@ theorem any_two_merges_agree (w : World) (i : Nat) (ops1 ops2 : List (Nat × Byt
   obtain ⟨b1, b2⟩ := interleaving_irrelevant w i ops2
   rw [a1, a2, b1, b2, h]
   exact ⟨rfl, rfl⟩
+
+/-! ## 9a. Router / context stop (`_SocketManager.close_all`) -/
+
+/-- **stop fails every pending request of every connection**: after `close_all` the peer map is empty and
+    every connection that was registered — incoming or outgoing, in whatever order they were registered, however
+    many there are — is closed with an empty pending table (its peer sees EOF); other connection objects are
+    untouched -/
+theorem close_all_closes_every_connection (w : World) :
+    w.closeAll.1.peers = [] ∧
+    (∀ a id c, (a, id) ∈ w.peers → w.conns.lookup id = some c →
+      ∃ c', w.closeAll.1.conns.lookup id = some c' ∧ c'.closed = true ∧ c'.st.pending = [] ∧
+        c'.st.alias = c.st.alias ∧ c'.st.peer = c.st.peer) ∧
+    (∀ j, (∀ a, (a, j) ∉ w.peers) → w.closeAll.1.conns.lookup j = w.conns.lookup j) := by
+  refine ⟨rfl, ?_, ?_⟩
+  · intro a id c hm hc
+    exact closeIds_closes w.env _ w.conns id c (List.mem_map.mpr ⟨(a, id), hm, rfl⟩) hc
+  · intro j hj
+    apply closeIds_lookup_other
+    intro hmem
+    obtain ⟨⟨a, i⟩, hm, rfl⟩ := List.mem_map.mp hmem
+    exact hj a hm
+
+/-- … and (one registration per connection object) the local side sees exactly one error reply per pending
+    request of each connection, connection after connection in registration order, nothing else -/
+theorem close_all_fails_pending (w : World) (hnd : (w.peers.map (·.2)).Nodup) :
+    w.closeAll.2 = (w.peers.map (·.2)).flatMap (fun id =>
+      match w.conns.lookup id with
+      | some c => c.st.pending.map (clearEv w.env c.st.peer)
+      | none => []) :=
+  closeIds_events w.env _ w.conns hnd
 
 /-! ## 10. Non-vacuity: the hypotheses above are met by concrete, non-trivial states -/
 
@@ -773,6 +806,12 @@ example : AliasesBelow exWorld := by
 /-- an interleaving: garbage on connection 0 between the segments of connection 1 -/
 example : ((World.run exWorld [(1, frame [1]), (0, [0x51]), (1, frame [2])]).2.filter fun e => e.1 == 1) =
     (World.run exWorld [(1, frame [1]), (1, frame [2])]).2 := by
+  decide
+
+/-- `close_all` on the example world: both connections closed, 2 + 2 error replies, in registration order -/
+example : (exWorld.closeAll.1.conns.map fun e => (e.1, e.2.closed, e.2.st.pending.length)) = [(0, true, 0), (1, true, 0)] ∧
+    (attempts exWorld.closeAll.2).map (·.rid) = [9, 10, 9, 10] ∧ exWorld.closeAll.1.peers = [] ∧
+    (exWorld.peers.map (·.2)).Nodup := by
   decide
 
 end QmiModel.Frame
